@@ -156,8 +156,11 @@ theorem tagSet_isEsc (b : UInt8) (h : tagSet b = true) : isEsc b = true := by
 theorem measSet_isEsc (b : UInt8) (h : measSet b = true) : isEsc b = true := by
   simp [measSet] at h; rcases h with h | h <;> subst h <;> decide
 
-theorem unescape_str (s : Bytes) : unescape (escName strSet s) = s :=
-  unescape_escName strSet s strSet_isEsc (fun b _ hb => by subst hb; decide)
+theorem strSet_isEscStr (b : UInt8) (h : strSet b = true) : isEscStr b = true := by
+  simp [strSet] at h; rcases h with h | h <;> subst h <;> decide
+
+theorem unescape_str (s : Bytes) : unescapeStr (escName strSet s) = s :=
+  unescapeBy_escName isEscStr strSet s strSet_isEscStr (fun b _ hb => by subst hb; decide)
 
 /-- `parseFieldValue` on a bare (unquoted, non-boolean) token with known first and last byte -/
 theorem parseFieldValue_bare (pf : Bytes → Option UInt64) (valid : Bool) (c : UInt8) (t init : Bytes) (z : UInt8)
